@@ -30,10 +30,6 @@ def run_query(I, msg):
     return 'ok', payload.data
 
 
-def swap_op(tin, tout, pool_id):
-    return mk_enum('mantra_dex_std::pool_manager::SwapOperation', 'MantraSwap', token_in_denom=tin, token_out_denom=tout, pool_identifier=pool_id)
-
-
 def _replay_r1(m):
     fees = (m['protocol_fee'], m['swap_fee'], m['burn_fee'], [m.get('extra_fee0', 0)])
     pool = pool_json('p1', ['uA', 'uB'], [6, 6], [m['reserve_x'], m['reserve_y']], 'constant_product', fees)
@@ -130,11 +126,6 @@ def _replay_route_native(label, m):
             why = bad + ' (pools %d/%d and %d/%d, offer %d)' % (ps['x'], ps['y'], ps['z'], ps['w'], ps['offer'])
             return sc, (lambda o, w=why: (True, w))
     return None
-
-
-def route_msg(ops, minimum=None, receiver=None, max_slippage=None):
-    return mk_enum('mantra_dex_std::pool_manager::ExecuteMsg', 'ExecuteSwapOperations', operations=Vc(ops),
-                   minimum_receive=minimum or NONE(), receiver=receiver or NONE(), max_slippage=max_slippage or NONE())
 
 
 @obligation('C12', 'R2.route_simulation_equals_execution', entries=['query', 'simulate_swap_operations', 'execute', 'execute_swap_operations', 'perform_swap'],
